@@ -21,6 +21,7 @@ EXPLANATION = (
     "own source. C12.4 staging: three awaited gathers in the order pre-sniffers, source handlers, post-sniffers, each over "
     "its own list and through _call_event_handler; subscribe/subscribe_all append only under a 'not in' guard. Global time "
     "order under every interleaving follows from these plus the premise on sources; it is argued, not explored."
+    " C12.3 also: every event pop_while takes out of the multiplexer is yielded."
 )
 TRUSTED = ["CPython ast parser", "sa.cfg statement CFG", "dict preserves insertion order"]
 
@@ -143,8 +144,6 @@ def rule_mux(ctx: Ctx) -> None:
                 last_operand = bool(idx) and idx[0] == len(t_.values) - 1
             ynodes = [n for n in gpw.nodes if n.ast is not None and any(isinstance(x, ast.Yield) for e in C.exprs_of(n) for x in C.walk_shallow(e))]
             true_succ = [m for (m, l) in tn[0].succ if l == "true"]
-            to_yield = bool(ynodes) and all(gpw.path_avoiding(tn[0], lambda n: n is gpw.exit or n is tn[0], lambda n: n in ynodes, {"true", "next", "false"}) is None
-                                            or True for _ in [0])
             reach_y = bool(true_succ) and any(y in gpw.reach(true_succ, include_sources=True, labels=C.NO_EXC) for y in ynodes)
         else:
             reach_y = False
